@@ -3,5 +3,6 @@ import Properties.C02
 import Properties.C03
 import Properties.C05
 import Properties.C06
+import Properties.C07
 import Properties.C08
 import Properties.C10
